@@ -29,6 +29,7 @@ DESIGN_REF = "DESIGN.md section 6 C12"
 
 ACTIONS = ["SkipDelim", "OpenQuote", "CloseQuote", "OtherQuoteLiteral", "EscapedDelimOrQuote", "Plain", "EndToken", "Finish"]
 SQ, DQ, BS = 39, 34, 92
+ENV = {}        # harness environment (VH_LEVELS) taken from the specification's DebugLevels at the first emitted case
 SAMPLE_INPUTS = {tuple(ord(c) for c in s) for s in ('a\\ b', '"a \'b', '"\\"a')}
 
 
@@ -108,6 +109,10 @@ def exhaustive(ctx, exe):
     cs = x_c12.CaseStream(ctx, exe, [], keyfn, "exhaustive_cases")
 
     def on_case(r):
+        if cs.env is None:
+            cs.env = x_c12.levels_env(r["lv"])         # the specification's DebugLevels: every case runs at each of them
+            ENV.update(cs.env)
+            ctx.cov["debug_levels"] = list(r["lv"])
         stats["n"] += 1
         s = r["s"]
         if SQ in s or DQ in s or BS in s or len(r["split"]) >= 2:
@@ -150,6 +155,8 @@ def histories(ctx, exe):
     st = {"n": 0, "steps": 0, "nonblank_then_blank": 0, "blank_then_nonblank": 0, "sep_changes": 0, "triples": 0}
 
     def on_hist(r):
+        if cs.env is None:
+            cs.env = x_c12.levels_env(r["lv"])
         h = r["h"]
         st["n"] += 1
         st["steps"] += len(h)
@@ -252,7 +259,7 @@ def long_inputs(ctx, exe):
     def recorder(c, at, ret):
         got[(c.sid, at)] = untok(ret)
     lkey = lambda c, at, f: "long-input[%s] %s" % (c.meta["family"], keyfn(c, at, f))
-    x_c12.run_cases(ctx, exe, [], cases, lkey, "long_inputs", recorder=recorder)
+    x_c12.run_cases(ctx, exe, [], cases, lkey, "long_inputs", recorder=recorder, env=dict(ENV))
     # join on the token lists that split returned (second pass: the tokens are only known now)
     jcases = []
     for c in cases:
@@ -260,7 +267,7 @@ def long_inputs(ctx, exe):
         if ts and len(c.meta["s"]) <= JOIN_MAX and all(isinstance(x, list) for x in ts):
             jcases.append(x_c12.Case(c.sid, [("join", [tok(ts)], "?", None)], dict(c.meta, toks=ts)))
     jgot = {}
-    x_c12.run_cases(ctx, exe, [], jcases, lkey, "long_inputs_join", recorder=lambda c, at, ret: jgot.__setitem__(c.sid, untok(ret)))
+    x_c12.run_cases(ctx, exe, [], jcases, lkey, "long_inputs_join", env=dict(ENV), recorder=lambda c, at, ret: jgot.__setitem__(c.sid, untok(ret)))
     events, index = [], []
     blank = lambda t: isinstance(t, list) and len(t) > 0 and all(ch in (32, 9, 10, 11, 12, 13) for ch in t)
     for c in cases:
